@@ -177,6 +177,7 @@ def c04(r):
     seen = defaultdict(list)  # deme -> fitness keys of everything in its history
     prev_best = None
     allcalls_nonlocal = []
+    allcalls = set()
     cls = {}
     for i, e in enumerate(r["events"]):
         k = e["e"]
@@ -186,6 +187,9 @@ def c04(r):
             seen[e["deme"]] += [fit for _, fit in e["inds"]]
         elif k == "call" and cls.get(e["deme"]) != "LocalDeme":
             allcalls_nonlocal.append(e["v"])
+            allcalls.add(key(e["v"]))
+        elif k == "call":
+            allcalls.add(key(e["v"]))
         elif k in ("stepend", "end", "init") and e.get("bests") is not None:
             b = e["bests"]
             everything = [x for v in seen.values() for x in v]
@@ -211,6 +215,8 @@ def c04(r):
                 t = max(nonnan, key=key) if mx else min(nonnan, key=key)
                 if b["tree"] is not None and better(t, b["tree"][1], mx):
                     out.append(V("C04/observed", f"the objective returned {fl(t)!r} to a non-local engine but the reported best is {fl(b['tree'][1])!r}", event=i))
+            if k == "end" and b["tree"] is not None and not r["spec"].get("has_cutoff") and key(b["tree"][1]) not in allcalls:
+                out.append(V("C04/observed-member", f"the reported best {fl(b['tree'][1])!r} is not a value the objective returned during this run ({len(allcalls)} distinct values observed)", event=i))
         if len(out) > 2:
             break
     return out
